@@ -60,17 +60,19 @@ def check_chunk(args):
     return name, res
 
 
-def locate(d, name, samples):
-    """Find the offending samples of a rejected chunk by splitting."""
+def locate(d, name, samples, want=3):
+    """Find offending samples of a rejected chunk by splitting (at most `want` of them: that many are reported)."""
     if len(samples) == 1:
         return samples
     mid = len(samples) // 2
     bad = []
     for i, part in enumerate((samples[:mid], samples[mid:])):
+        if len(bad) >= want:
+            break
         n2 = "%s_%d" % (name, i)
         _, res = check_chunk((d, n2, part))
         if res == "violated":
-            bad += locate(d, n2, part)
+            bad += locate(d, n2, part, want - len(bad))
     return bad
 
 
@@ -82,7 +84,7 @@ def judge_samples(v, pid, w, samples, sz, seed, label):
     bad = []
     with concurrent.futures.ThreadPoolExecutor(max_workers=sz["par"]) as ex:
         for name, res in ex.map(check_chunk, chunks):
-            if res == "violated":
+            if res == "violated" and len(bad) < 5:
                 part = [c for c in chunks if c[1] == name][0][2]
                 bad += locate(d, name, part)
     small = [s for s in samples if s["small"] and s["r"] != "panic"]
